@@ -14,33 +14,58 @@ def oracles_():
 
 
 MANIFEST = {
-    "text": "Coq theorems (Properties_C13_uord.v) about the faithful model of lyd_diff_reverse_all on user-ordered lists: the full "
-            "statement is refuted with witnesses (reverse_apply_userord_refuted*, every reversed diff containing a delete fails), "
-            "the provable fragment is proved (no delete, at most one move: reverse_apply_userord_partial). Tie: extracted model vs "
-            "the real reverse+apply (T2). Reversal/merge/merge-undo for leaves, containers, choices and system-ordered lists at any "
-            "depth are checked by the API oracle on generated triples (search); user-ordered reversal is a listed known finding. "
-            "TREE level, everything that is not user-ordered (Properties_C13_difftree.v, closed): C13_reverse_apply (for all well-formed "
-            "A,B reverse(diff(A,B)) succeeds and applied to B yields A exactly, flags included), C13_reverse_meaning (reversal exchanges "
-            "the roles of the trees for every diff that describes the change, whatever its sibling order), C13_reverse_involutive_refuted "
-            "/ _partial (reverse twice loses the default flag of duplicated parents in the diff tree but keeps the meaning), "
-            "C13_merge_apply_regression (the witness of the former finding merge-npcont-dflt, fixed in libyang by 2dd55cd and in the "
-            "model with it: the merged diff now yields C exactly), C13_merge_undo (for all well-formed "
-            "A,B (any schema; the data hold no user-ordered instance) merging diff(B,A) into diff(A,B) gives the EMPTY diff, both merge options) "
-            "and its corollary C13_merge_apply_partial (the composition law for C = A), C13_merge_apply_partial_disjoint (the composition law "
-            "when the two diffs touch different top-level instances) and C13_merge_apply_partial_mixed (the composition law for every C "
-            "in which each top-level identity touched by both diffs is back at its state in A: the meeting roots cancel at any depth, "
-            "the others are added / kept - partial rollback combined with independent changes; both earlier theorems are instances; "
-            "missing: roots that meet without cancelling), C13_merge_apply_partial_cells (without LYD_DIFF_MERGE_DEFAULTS the meeting "
-            "roots may also be leaves in the cells replace + replace, create + replace, delete + create: the met root is replaced in "
-            "place by the merged one; missing: the other leaf cells, inner / list cells that do not cancel, cells below the top level). "
-            "Tie: the extracted models of "
-            "lyd_diff_reverse_all and lyd_diff_merge_all (whole merge table, redundancy removal, both merge options) must print the same "
-            "reversed / merged diff trees and the same patched trees as libyang on generated triples built to hit every cell (T2 "
-            "dtree-C13); the laws are also judged on the implementation by dump equality (difftree-laws-C13). Node kinds outside the model (oracle difftree-kinds-C13, driver t_c14x, dumps with anydata value type and content, metadata, opaque nodes): apply(reverse(diff(A,B)),B) = A and apply(merge(diff(A,B),diff(B,C)),A) = C on trees with anydata / anyxml values of every representation, metadata and opaque nodes; the known deviations (a reversed anydata value comes back as a string, metadata / opaque nodes are not carried) are computed exactly per case. Merge options (oracle difftree-mergeopts-C13): apply(merge(diff(A,B),diff(B,C)),A) = C by dump equality for both values of LYD_DIFF_MERGE_DEFAULTS on diffs made with LYD_DIFF_DEFAULTS, and for diffs made without it on triples without default nodes; leaves with own and with typedef defaults (no LYS_SET_DFLT) in the correspondence, law and kinds generators. User-ordered lists (oracle difftree-uord-movechange-C13): reversal of diffs in which one instance of a user-ordered keyed list (top level, in containers, in list entries) is moved or created AND changed inside (nested leaves, containers, leaf-lists, nested list entries, default leaves), both diff option settings, with controls; failures are attributed to uord-reverse only when the diff deletes a user-ordered instance or moves two instances of one list (also in diff-uord-reverse).",
-    "note": "Modelled C: lyd_diff_reverse_all restricted to one user-ordered leaf-list. Tree level (slice difftree): lyd_diff_reverse_all (incl. lyd_diff_reverse_value/_default, "
-            "the ignored error of lyd_diff_reverse_remove_op_r), lyd_diff_merge_r with lyd_diff_merge_none/_replace/_create/_delete, "
-            "lyd_diff_is_redundant and the default-flag walks in the diff tree. The composition law (merge_apply) for arbitrary C has no general proof "
-            "(proved for C = A); no counterexample is known since 2dd55cd, it is tied by T2 and checked by dump equality on the "
-            "implementation for every generated triple. Fixed diff findings are kept as regression cases (difftree-regress-*).",
+    "text": "LIST level (Properties_C13_uord.v; model DiffUserOrd of lyd_diff_reverse_all + lyd_diff_apply_all for ONE user-ordered "
+            "leaf-list): the full statement (for duplicate-free l1, l2 the reversed diff applied to l2 gives l1) is REFUTED - "
+            "C13_reverse_apply_userord_refuted with C13_reverse_wrong_order_witness (moves replayed in forward order), "
+            "C13_reverse_apply_userord_refuted_error, C13_reverse_apply_userord_delete_fails (EVERY diff with a delete fails to "
+            "apply after reversal) - and the fragment that holds is proved: no delete and at most one move "
+            "(C13_reverse_apply_userord_partial), there *data is the first sibling of the restored list "
+            "(C13_reverse_apply_userord_partial_pointer, since libyang a54f28a; the former refutation is the Example "
+            "C13_reverse_first_sibling_regression); Example C13_userord_partial_example. Tie (T2 udiff, driver t_uord): extracted "
+            "model vs the real reverse + apply. TREE level, everything that is not user-ordered (Properties_C13_difftree.v, closed "
+            "under the global context; hypothesis wfb as in C06: modelled kinds only, no metadata, consistent default flags, "
+            "canonical order; diffs made with LYD_DIFF_DEFAULTS): C13_reverse_apply (for all wfb A, B reverse(diff(A,B)) succeeds "
+            "and applied to B yields A exactly, flags included); C13_reverse_meaning (reversal exchanges the roles of the trees for "
+            "every diff that describes the change, whatever its sibling order); C13_reverse_involutive_refuted / "
+            "C13_reverse_involutive_partial (reverse twice can lose the default flag of a duplicated parent in the diff TREE, but "
+            "the twice-reversed diff applied to A still yields B); Examples C13_reverse_example, C13_merge_apply_regression "
+            "(witness of the former finding merge-npcont-dflt, fixed in libyang by 2dd55cd and in the model with it); "
+            "C13_merge_undo (for all wfb A, B over any schema merging diff(B,A) into a copy of diff(A,B) gives the EMPTY diff, both "
+            "merge options). The composition law apply(merge(diff(A,B),diff(B,C)),A) = C is proved in these cases only: "
+            "C13_merge_apply_partial (C = A), C13_merge_apply_partial_disjoint (no top-level root of diff(B,C) meets one of "
+            "diff(A,B)), C13_merge_apply_partial_mixed (every top-level identity touched by both diffs is back at its state in A; "
+            "both former are instances; both merge options), C13_merge_apply_partial_cells (WITHOUT LYD_DIFF_MERGE_DEFAULTS: the "
+            "top-level roots that meet cancel or are operations on a leaf in the cells replace + replace, create + replace, delete "
+            "+ create); Examples C13_merge_undo_example, C13_merge_disjoint_example, C13_merge_mixed_example, "
+            "C13_merge_cells_example. NOT proved: the other leaf cells, non-cancelling cells of inner nodes / list instances (none "
+            "+ none with recursion), cells below the top level; with LYD_DIFF_MERGE_DEFAULTS the law is false (known finding "
+            "merge-defaults-opt-delete-create). Tie (T2 dtree-C13, driver lyx): the extracted models of lyd_diff_reverse_all and "
+            "lyd_diff_merge_all (whole merge table, redundancy removal, both merge options) must print the same reversed / merged "
+            "diff trees and patched trees as libyang on generated triples built to hit every cell (leaves with own and typedef "
+            "defaults). ORACLE level only (implementation alone): uord-reverse, diff-reverse / diff-uord-reverse (reverse, merge, "
+            "merge-undo on generated trees; merge only without user-ordered / key-less lists), difftree-laws-C13 (dump equality on "
+            "the T2 triples), difftree-kinds-C13 (driver t_c14x: reverse and merge with anydata / anyxml values of every "
+            "representation, metadata, opaque nodes; known deviations computed exactly per case), difftree-mergeopts-C13 (the "
+            "composition law by dump equality for both values of LYD_DIFF_MERGE_DEFAULTS on diffs made with LYD_DIFF_DEFAULTS, and "
+            "for diffs made without it only on triples without default nodes), difftree-uord-movechange-C13 (one instance of a "
+            "user-ordered keyed list moved or created AND changed inside, both diff option settings), difftree-regress-C13 (drivers "
+            "lyx and t_c14x). Known findings these oracles attribute (status known): uord-reverse (only when the diff deletes a "
+            "user-ordered instance or moves two instances of one list), uord-empty-anchor-reverse, dupinst-reverse, "
+            "reverse-any-string, diff-ignores-metadata-c13, diff-ignores-opaque-c13, merge-defaults-opt-delete-create. Fixed in "
+            "libyang, a recurrence is a violation: merge-npcont-dflt 2dd55cd, uord-move-state-subtree-reverse 99529e5, "
+            "any-empty-orig-value 05a4858, reverse-any-same-text bd6fa8c, merge-any-replace-delete e592b93, merge-any-delete-create "
+            "eaa6a18, merge-opaque 4b5ac3f, uord-apply-move-first-sibling a54f28a.",
+    "note": "Modelled, not verified: the Coq models are hand transcriptions of the C code, tied to it only by T2 on generated "
+            "inputs. List level: lyd_diff_reverse_all and lyd_diff_apply_all (lyd_diff_insert with the *first_node update of "
+            "a54f28a) restricted to one user-ordered leaf-list. Tree level (slice difftree): lyd_diff_reverse_all (incl. "
+            "lyd_diff_reverse_value / _default, the ignored error of lyd_diff_reverse_remove_op_r), lyd_diff_merge_r with "
+            "lyd_diff_merge_none / _replace / _create / _delete, lyd_diff_is_redundant, LYD_INSERT_NODE_LAST_BY_SCHEMA among diff "
+            "siblings and the default-flag walks in the diff tree (lyd_diff_merge_dflt_flag). The composition law for arbitrary C "
+            "has no general proof (cases listed in the text); no counterexample without LYD_DIFF_MERGE_DEFAULTS is known since "
+            "2dd55cd: it is tied by T2 and checked by dump equality on the implementation on every generated triple. Outside the "
+            "tree model, oracle only: user-ordered and duplicate-instance lists inside trees (the merge laws are not claimed for "
+            "them), anydata / anyxml, metadata, opaque nodes, merging diffs made WITHOUT LYD_DIFF_DEFAULTS on trees that hold "
+            "default nodes (not judged: the documented precondition of the merge is not met by diff(B,C) there). Outside "
+            "everything: diff callbacks, lyd_diff_merge_tree / _module, extension data.",
     "technique": "Coq proof/refutation on list-level model + differential correspondence + API metamorphic oracle",
 }
